@@ -43,6 +43,8 @@ func genC37(tier string, seed uint64, idx int) *simkit.Plan {
 	ascending := rng.Chance(1, 2) // keys first written in ascending order (what a sequencer produces) or arbitrary
 	p.SetC("ascending", b2i64(ascending))
 	next := 0
+	// one run in eight moves megabytes, so that an increment spans several blocks of the copy stream (2 MiB each)
+	big := rng.Chance(1, 8)
 	for i := 0; i < n; i++ {
 		switch x := rng.Intn(100); {
 		case x < 45:
@@ -51,7 +53,11 @@ func genC37(tier string, seed uint64, idx int) *simkit.Plan {
 				next++
 				k = next
 			}
-			p.Add(simkit.St("put", rng.Uint64(), "key", k, "size", []int{1, 20, 300, 3000}[rng.Intn(4)]))
+			size := []int{1, 20, 300, 3000}[rng.Intn(4)]
+			if big && rng.Chance(1, 2) {
+				size = []int{700000, 1100000, 2200000}[rng.Intn(3)] + rng.Intn(4096)
+			}
+			p.Add(simkit.St("put", rng.Uint64(), "key", k, "size", size))
 		case x < 60:
 			p.Add(simkit.St("del", rng.Uint64(), "key", 1+rng.Intn(keys)))
 		case x < 70:
